@@ -386,6 +386,7 @@ func runC19(c *Check, w *World) {
 	for _, f := range fns {
 		x.checkLoops(f, "R19.1")
 	}
+	ruleNoFormatRecursion(c, w, "R19.1", append(append([]*ssa.Function(nil), w.ModuleFuncs(OtpPath)...), w.ModuleFuncs(ApiPath)...))
 	// code that runs outside the recovering middleware — the handlers of the middlewares listed before it — has
 	// nobody to catch a panic (fasthttp does not recover): every index and slice expression there is in bounds
 	if handlerStore != nil && recFn != nil {
